@@ -569,12 +569,15 @@ Proof. constructor. Qed.
 
 Lemma wf_step tpb a o a' calls : wf_auto a -> step tpb a o = Some (a', calls) -> wf_auto a'.
 Proof.
-  intros Hw. destruct o as [|v d e|v d e|v|b]; cbn [step].
+  intros Hw. destruct o as [|v d e|v d e|v|b|r|b|dd]; cbn [step].
   - intros H. apply some_inj in H. pose proof (tick_spec a Hw) as [_ [T _]]. rewrite H in T. exact T.
   - destruct (move_to tpb a v d e) as [a1|] eqn:E; [|discriminate]. cbn [option_map]. intros H; apply some_inj in H.
     inversion H; subst. apply (move_to_spec _ _ _ _ _ _ E).
   - destruct (move_by tpb a v d e) as [a1|] eqn:E; [|discriminate]. cbn [option_map]. intros H; apply some_inj in H.
     inversion H; subst. apply (move_by_spec _ _ _ _ _ _ Hw E).
+  - intros H; apply some_inj in H. inversion H; subst. exact Hw.
+  - intros H; apply some_inj in H. inversion H; subst. exact Hw.
+  - intros H; apply some_inj in H. inversion H; subst. exact Hw.
   - intros H; apply some_inj in H. inversion H; subst. exact Hw.
   - intros H; apply some_inj in H. inversion H; subst. exact Hw.
 Qed.
@@ -687,4 +690,37 @@ Proof.
   cbn [snd] in *. constructor.
   - cbn [fst snd]. destruct Hc as [[_ ->]|[_ ->]]; [left; reflexivity|right; rewrite Hb; reflexivity].
   - rewrite <- Hb. exact IH.
+Qed.
+
+(** * FIX-C18: range / boundaries / default_duration re-assigned after construction, also while moves are running.
+   The movement of current_value depends on current_value and the active moves alone, so a move under way
+   arrives when it would have, and what is reported is that value clipped / wrapped into the range in force *)
+Definition same_motion (a b : automation) : Prop := a_cv a = a_cv b /\ a_mods a = a_mods b.
+
+Lemma tick_same_motion a b : same_motion a b -> same_motion (fst (tick a)) (fst (tick b)).
+Proof.
+  intros [C M]. unfold tick. rewrite M. destruct (tick_mods (a_mods b)) as [s ms]. rewrite C.
+  destruct (Qeq_bool (Qred (a_cv b + s)) (a_cv b)); unfold jump_to, same_motion;
+    cbn [fst set_cv set_mods a_cv a_mods]; split; auto.
+Qed.
+
+Lemma run_ticks_same_motion n a b : same_motion a b -> same_motion (run_ticks n a) (run_ticks n b).
+Proof.
+  revert a b; induction n as [|n IH]; intros a b H; [exact H|]. rewrite !run_ticks_S. apply IH, tick_same_motion, H.
+Qed.
+
+Lemma reconfig_same_motion a r b d : same_motion (set_default (set_bound (set_range a r) b) d) a.
+Proof. split; reflexivity. Qed.
+
+Lemma reconfig_value n a r b d :
+  let a' := set_default (set_bound (set_range a r) b) d in
+  a_cv (run_ticks n a') = a_cv (run_ticks n a)
+  /\ a_mods (run_ticks n a') = a_mods (run_ticks n a)
+  /\ a_binds (run_ticks n a') = a_binds a
+  /\ value (run_ticks n a') = report r b (a_cv (run_ticks n a)).
+Proof.
+  cbv zeta. destruct (run_ticks_same_motion n _ _ (reconfig_same_motion a r b d)) as [C M].
+  destruct (run_ticks_fields n (set_default (set_bound (set_range a r) b) d)) as [F1 [F2 F3]].
+  repeat split; try assumption.
+  rewrite value_report, F1, F2, C. reflexivity.
 Qed.
